@@ -36,8 +36,19 @@ func c15Content(class, n int) []byte {
 	return b
 }
 
+// c15IsoLimit: address-space limit of the sub-process that reads streams declaring huge
+// lengths. It must leave room for the Go runtime and the worker itself (calibrated below).
+const c15IsoLimit = 3 << 30
+
 func c15Direct(c *Ctx) {
 	r := c.R
+	if c.Filter == "" && r.Shard == 0 {
+		// calibration: a harmless unit must survive the limit, or the limit says nothing
+		if res := RunIsolated("C15", "rt|size=3|class=1|one-buffer", c15IsoLimit); res != "ok" {
+			r.Stats.HarnessErrors = append(r.Stats.HarnessErrors, "isolation limit too small for the worker itself: "+res)
+			return
+		}
+	}
 	codec := compression.New("snappy")
 	idx := 0
 	own := func() bool { idx++; return r.Owns(idx) }
@@ -267,14 +278,14 @@ func c15Corrupt(r *explore.Runner, codec compression.Codec, unit string, stream 
 		// a declared length far beyond the bytes present: run the client's reader in a
 		// sub-process with a 1 GiB address space so that a length-driven allocation
 		// cannot take the sandbox down, and judge the outcome
-		switch res := RunIsolated("C15", unit, 1<<30); {
+		switch res := RunIsolated("C15", unit, c15IsoLimit); {
 		case res == "ok":
 			outc["huge-declared-length-handled"]++
 		case strings.HasPrefix(res, "finding"):
 			r.Direct(unit, true, "", &explore.Finding{Class: "corrupt-stream-finding-in-isolation", Msg: res}, func() any { return unit })
 		default:
 			r.Direct(unit, true, "", &explore.Finding{Class: "declared-length-drives-fatal-allocation",
-				Msg: fmt.Sprintf("a %d-byte stream declaring a huge uncompressed length kills a process limited to 1 GiB of address space: %s", len(stream), res)}, func() any { return unit })
+				Msg: fmt.Sprintf("a %d-byte stream declaring a huge uncompressed length kills a process limited to 3 GiB of address space: %s", len(stream), res)}, func() any { return unit })
 		}
 		return
 	}
